@@ -4,7 +4,8 @@
 //! with the model and the stated invariants are asserted directly.
 
 use crate::common::*;
-use repe::{CreditError, NotifyBody, PeerHandle, PeerId, PeerSendError, PeerSink, ReconnectOutcome, ResumeRejection, TransferControl};
+use repe::{CreditError, NotifyBody, PeerHandle, PeerId, PeerSendError, PeerSink, ReconnectOutcome, ResumeRejection, RingChunk, TransferControl};
+use std::sync::atomic::{AtomicU64, Ordering};
 use serde_json::{Value, json};
 use std::sync::Arc;
 use std::time::{Duration, Instant};
@@ -41,6 +42,8 @@ pub enum Op {
     SentAhead { ahead: u64 },
     Ack { file: u32, off: u64 },
     Cancel { reason: u8 },
+    /// cancel with a literal text (wording observed from the library's own idle watchdog)
+    CancelText(String),
     Advance { file: u32 },
     Resume { peer: u64, file: u32, off: u64 },
     /// pure predicate: wait_for_credit with an already expired deadline
@@ -123,9 +126,52 @@ impl Model {
     }
 }
 
-/// reason 0 is the EMPTY string (a bare cancel without a text): it is a first reason like any other
+/// Number of entries of the reason table below.
+const REASONS: u64 = 12;
+/// reason 0 is the EMPTY string (a bare cancel without a text): it is a first reason like any other. The property does not
+/// depend on WHO cancelled or with WHICH text, so the table also holds the wording the library's own idle watchdog uses
+/// (an embedder's watchdog or a user may pass the very same string), near misses of it, blank, long and non-ASCII texts.
 fn reason(r: u8) -> String {
-    if r == 0 { String::new() } else { format!("reason-{r}") }
+    match r {
+        0 => String::new(),
+        3 => "transfer idle".into(),
+        4 => " ".into(),
+        5 => "client cancelled".into(),
+        6 => format!("{}transfer idle", "x".repeat(5000)),
+        7 => "\u{4f20}\u{8f93}\u{7a7a}\u{95f2} \u{2014} \u{dc}bertragung unt\u{e4}tig \u{23f1}".into(),
+        8 => "Transfer idle".into(),
+        9 => "transfer idle ".into(),
+        10 => "idle".into(),
+        11 => "transfer idle\0".into(),
+        _ => format!("reason-{r}"),
+    }
+}
+
+/// Results of earlier operations that a caller may keep alive for as long as it likes (a replay in progress, a chunk queued
+/// for resend, another handle on the control, the peer of an earlier resume). Holding one must not change what the ring retains
+/// or any other observable: the model is the same with and without them.
+#[allow(dead_code)]
+enum Held {
+    Snap(Vec<RingChunk>),
+    Chunk(RingChunk),
+    Body(Arc<Vec<u8>>),
+    Ctl(Arc<TransferControl>),
+    Peer(PeerHandle),
+}
+#[derive(Clone, Copy, PartialEq)]
+enum Hold {
+    None,
+    /// keep the result of replay_chunks_from(0) taken after EVERY operation alive to the end of the history
+    All,
+    /// take / drop held results at random points (seeded)
+    Random(u64),
+}
+#[derive(Default)]
+struct HoldStats {
+    taken: AtomicU64,
+    dropped: AtomicU64,
+    pushes_with_ring_results_alive: AtomicU64,
+    max_alive: AtomicU64,
 }
 
 /// Apply `op` to the implementation and to the model; returns (impl result, model result).
@@ -177,6 +223,13 @@ fn apply(ctl: &TransferControl, m: &mut Model, op: &Op) -> (Res, Res) {
             ctl.cancel(reason(*r));
             if m.cancelled.is_none() {
                 m.cancelled = Some(reason(*r));
+            }
+            (Res::Unit, Res::Unit)
+        }
+        Op::CancelText(t) => {
+            ctl.cancel(t.clone());
+            if m.cancelled.is_none() {
+                m.cancelled = Some(t.clone());
             }
             (Res::Unit, Res::Unit)
         }
@@ -242,7 +295,16 @@ fn apply(ctl: &TransferControl, m: &mut Model, op: &Op) -> (Res, Res) {
 fn check(ctl: &TransferControl, m: &Model, before: &Model, op: &Op, ri: &Res, rm: &Res, c13: bool) -> Option<(String, String)> {
     let p = if c13 { "C13" } else { "C11" };
     let opn = format!("{op:?}");
-    let opn = opn.split([' ', '{']).next().unwrap_or("").to_string();
+    let opn = opn.split([' ', '{', '(']).next().unwrap_or("").to_string();
+    // direct invariants from the statement: cancellation is permanent, a resume after it is refused, no credit after it
+    if before.cancelled.is_some() {
+        if let Res::Resume(Ok(_)) = ri {
+            return Some((format!("{p}:resume-after-cancel"), format!("{op:?} accepted after cancel (reason {:?}); cancel_reason() is now {:?}", before.cancelled, ctl.cancel_reason())));
+        }
+        if let Res::Credit(Ok(())) | Res::Sent(true) = ri {
+            return Some((format!("{p}:credit-after-cancel"), format!("{op:?} granted after cancel")));
+        }
+    }
     if ri != rm {
         return Some((format!("{p}:result:{opn}"), format!("{op:?} returned {ri:?}, model says {rm:?}")));
     }
@@ -270,14 +332,6 @@ fn check(ctl: &TransferControl, m: &Model, before: &Model, op: &Op, ri: &Res, rm
             return Some((format!("{p}:over-grant"), format!("credit for {c} granted with {inflight_before} in flight and window {}", before.window)));
         }
     }
-    if before.cancelled.is_some() {
-        if let Res::Resume(Ok(_)) = ri {
-            return Some((format!("{p}:resume-after-cancel"), format!("{op:?} accepted after cancel")));
-        }
-        if let Res::Credit(Ok(())) | Res::Sent(true) = ri {
-            return Some((format!("{p}:credit-after-cancel"), format!("{op:?} granted after cancel")));
-        }
-    }
     // the credit predicate as a pure function of the observable state (every probe length)
     for c in [0u64, 1, 2, 3, m.window, m.window.wrapping_add(1).max(1)] {
         let c = c.min(1 << 48);
@@ -291,6 +345,10 @@ fn check(ctl: &TransferControl, m: &Model, before: &Model, op: &Op, ri: &Res, rm
     }
     // replay ring
     let ring = ctl.replay_chunks_from(0);
+    let held: u64 = ring.iter().map(|c| c.body_bytes.len() as u64).sum();
+    if held > m.cap && ring.len() != 1 {
+        return Some((format!("{p}:ring-over-capacity"), format!("ring holds {held} wire bytes in {} chunks, capacity {}", ring.len(), m.cap)));
+    }
     let same = ring.len() == m.ring.len()
         && ring.iter().zip(m.ring.iter()).all(|(a, b)| a.offset == b.off && a.data_len == b.d && a.last == b.last && *a.body_bytes == b.bytes);
     if !same {
@@ -298,10 +356,6 @@ fn check(ctl: &TransferControl, m: &Model, before: &Model, op: &Op, ri: &Res, rm
             format!("{p}:ring-content:{opn}"),
             format!("after {op:?}: ring holds {:?}, model {:?}", ring.iter().map(|c| (c.offset, c.data_len, c.body_bytes.len())).collect::<Vec<_>>(), m.ring.iter().map(|c| (c.off, c.d, c.bytes.len())).collect::<Vec<_>>()),
         ));
-    }
-    let held: u64 = ring.iter().map(|c| c.body_bytes.len() as u64).sum();
-    if held > m.cap && ring.len() != 1 {
-        return Some((format!("{p}:ring-over-capacity"), format!("ring holds {held} wire bytes in {} chunks, capacity {}", ring.len(), m.cap)));
     }
     for w in ring.windows(2) {
         if w[0].offset + w[0].data_len != w[1].offset {
@@ -335,18 +389,75 @@ fn check(ctl: &TransferControl, m: &Model, before: &Model, op: &Op, ri: &Res, rm
     None
 }
 
-fn run_seq(window: u64, cap: u64, ops: &[Op], check_from: usize, c13: bool) -> Option<(usize, String, String)> {
+fn run_seq(window: u64, cap: u64, ops: &[Op], check_from: usize, c13: bool, hold: Hold, hs: &HoldStats) -> Option<(usize, String, String)> {
     let ctl = TransferControl::with_replay_capacity(window, cap);
     let mut m = Model::new(window, cap);
+    // results of earlier operations kept alive across later ones (declared after `ctl`, so dropped before it)
+    let mut held: Vec<Held> = vec![];
+    let mut hr = if let Hold::Random(s) = hold { Some(Rng::new(s)) } else { None };
+    let (mut taken, mut dropped, mut pushes_live, mut max_alive) = (0u64, 0u64, 0u64, 0u64);
+    let flush = |taken: u64, dropped: u64, pushes_live: u64, max_alive: u64| {
+        if hold != Hold::None {
+            hs.taken.fetch_add(taken, Ordering::Relaxed);
+            hs.dropped.fetch_add(dropped, Ordering::Relaxed);
+            hs.pushes_with_ring_results_alive.fetch_add(pushes_live, Ordering::Relaxed);
+            hs.max_alive.fetch_max(max_alive, Ordering::Relaxed);
+        }
+    };
     for (i, op) in ops.iter().enumerate() {
+        if matches!(op, Op::Push { .. } | Op::Send { .. }) && held.iter().any(|h| matches!(h, Held::Snap(v) if !v.is_empty()) || matches!(h, Held::Chunk(_) | Held::Body(_))) {
+            pushes_live += 1;
+        }
         let before = if i >= check_from { Some(m.clone()) } else { None };
         let (ri, rm) = apply(&ctl, &mut m, op);
         if let Some(b) = before {
             if let Some((sig, d)) = check(&ctl, &m, &b, op, &ri, &rm, c13) {
+                flush(taken, dropped, pushes_live, max_alive);
                 return Some((i, sig, d));
             }
         }
+        match hold {
+            Hold::None => {}
+            Hold::All => {
+                held.push(Held::Snap(ctl.replay_chunks_from(0)));
+                taken += 1;
+            }
+            Hold::Random(_) => {
+                let r = hr.as_mut().unwrap();
+                if r.chance(1, 3) {
+                    let h = match r.below(8) {
+                        0 | 1 => Some(Held::Snap(ctl.replay_chunks_from(0))),
+                        2 => {
+                            let from = if m.ring.is_empty() || r.chance(1, 4) { r.below(40) } else { m.ring[r.usize_below(m.ring.len())].off };
+                            Some(Held::Snap(ctl.replay_chunks_from(from)))
+                        }
+                        3 => {
+                            let v = ctl.replay_chunks_from(0);
+                            if v.is_empty() { None } else { Some(Held::Chunk(v[r.usize_below(v.len())].clone())) }
+                        }
+                        4 | 5 => ctl.replay_chunks_from(0).first().map(|c| Held::Body(c.body_bytes.clone())),
+                        6 => Some(Held::Ctl(ctl.clone())),
+                        _ => ctl.peer().map(Held::Peer),
+                    };
+                    if let Some(h) = h {
+                        held.push(h);
+                        taken += 1;
+                    }
+                }
+                if !held.is_empty() && r.chance(1, 5) {
+                    let k = r.usize_below(held.len());
+                    held.swap_remove(k);
+                    dropped += 1;
+                }
+                if !held.is_empty() && r.chance(1, 30) {
+                    dropped += held.len() as u64;
+                    held.clear();
+                }
+            }
+        }
+        max_alive = max_alive.max(held.len() as u64);
     }
+    flush(taken, dropped, pushes_live, max_alive);
     // pending resume is consumed exactly once (checked at the end so it does not perturb the history)
     if check_from < ops.len() || ops.is_empty() {
         let first = matches!(ctl.wait_for_reconnect(Duration::ZERO), ReconnectOutcome::ResumeReady(_));
@@ -408,7 +519,7 @@ fn random_op(r: &mut Rng, m_file_hint: u32, c13: bool) -> Op {
             0..=5 => Op::Push { d: if r.chance(1, 8) { 0 } else { 1 + r.below(9) }, ovh: if r.coin() { 0 } else { r.below(12) }, last: r.chance(1, 10) },
             6..=8 => Op::Resume { peer: 1 + r.below(1000), file, off: if r.coin() { small(r) * 3 } else { r.below(60) } },
             9 => if r.coin() { Op::Advance { file: r.below(3) as u32 } } else if r.coin() { Op::SentAhead { ahead: 1 + r.below(12) } } else { Op::Ack { file, off: if r.coin() { u64::MAX } else { r.below(40) } } },
-            10 => if r.chance(1, 6) { Op::Cancel { reason: r.below(3) as u8 } } else { Op::Reconnect },
+            10 => if r.chance(1, 6) { Op::Cancel { reason: r.below(REASONS) as u8 } } else { Op::Reconnect },
             _ => Op::Reconnect,
         }
     } else {
@@ -420,10 +531,104 @@ fn random_op(r: &mut Rng, m_file_hint: u32, c13: bool) -> Op {
             10 => Op::Advance { file: r.below(3) as u32 },
             11 => Op::Resume { peer: 1 + r.below(1000), file, off: if r.coin() { r.boundary_u64() } else { small(r) } },
             12 => if r.coin() { Op::SentStale { back: r.below(5) } } else { Op::SentAhead { ahead: 1 + r.below(9) } },
-            13 => if r.chance(1, 5) { Op::Cancel { reason: r.below(3) as u8 } } else { Op::Credit { c: small(r) } },
+            13 => if r.chance(1, 5) { Op::Cancel { reason: r.below(REASONS) as u8 } } else { Op::Credit { c: small(r) } },
             14 => if r.coin() { Op::Reconnect } else { Op::Push { d: 1 + r.below(9), ovh: r.below(3), last: false } },
             _ => Op::Send { c: 1 + r.below(8), ovh: r.below(3) },
         }
+    }
+}
+
+/// Next operation chosen with knowledge of the model state, so that resumes that WOULD be valid (current file, a retained
+/// chunk boundary / the trailing edge) are frequent, next to invalid ones, waits, acks, sends and (if `cancels`) further cancels.
+fn guided_op(r: &mut Rng, m: &Model, cancels: bool) -> Op {
+    let boundary = |r: &mut Rng| -> u64 {
+        if m.ring.is_empty() {
+            0
+        } else if r.chance(1, 4) {
+            m.next_off
+        } else {
+            m.ring[r.usize_below(m.ring.len())].off
+        }
+    };
+    match r.below(14) {
+        0..=2 => Op::Send { c: 1 + r.below(8), ovh: r.below(3) },
+        3 => Op::Ack { file: m.file, off: if r.coin() { boundary(r) } else { r.below(m.sent.saturating_add(2)) } },
+        4..=6 => Op::Resume { peer: 1 + r.below(1000), file: m.file, off: boundary(r) },
+        7 => {
+            if r.coin() {
+                Op::Resume { peer: 1 + r.below(1000), file: m.file.wrapping_add(1 + r.below(2) as u32), off: boundary(r) }
+            } else {
+                Op::Resume { peer: 1 + r.below(1000), file: m.file, off: m.next_off.saturating_add(1 + r.below(5)) }
+            }
+        }
+        8 => Op::Credit { c: r.below(10) },
+        9 | 10 => Op::Reconnect,
+        11 => {
+            if cancels {
+                Op::Cancel { reason: r.below(REASONS) as u8 }
+            } else {
+                Op::Push { d: 1 + r.below(6), ovh: r.below(3), last: false }
+            }
+        }
+        12 => {
+            if r.chance(1, 3) {
+                Op::Advance { file: m.file.wrapping_add(1) }
+            } else {
+                Op::Credit { c: 1 + r.below(64) }
+            }
+        }
+        _ => Op::SentStale { back: r.below(3) },
+    }
+}
+
+/// One history driven step by step (parts that need to interleave something else - the library's idle watchdog - with it).
+struct Hist {
+    ctl: Arc<TransferControl>,
+    m: Model,
+    log: Vec<String>,
+    valid_resumes_after_cancel: u64,
+    ops_after_cancel: u64,
+}
+impl Hist {
+    fn new(r: &mut Rng) -> Hist {
+        let window = *r.pick(&[0u64, 8, 64, 1 << 20]);
+        let cap = *r.pick(&[0u64, 16, 64, 1 << 20, 1 << 20]);
+        Hist { ctl: TransferControl::with_replay_capacity(window, cap), m: Model::new(window, cap), log: vec![], valid_resumes_after_cancel: 0, ops_after_cancel: 0 }
+    }
+    fn step(&mut self, op: Op) -> Option<(String, String)> {
+        let before = self.m.clone();
+        if before.cancelled.is_some() {
+            self.ops_after_cancel += 1;
+            if let Op::Resume { file, off, .. } = &op {
+                if *file == before.file && before.covers(*off) {
+                    self.valid_resumes_after_cancel += 1;
+                }
+            }
+        }
+        let (ri, rm) = apply(&self.ctl, &mut self.m, &op);
+        let v = check(&self.ctl, &self.m, &before, &op, &ri, &rm, false);
+        self.log.push(format!("{op:?}"));
+        v.map(|(sig, d)| (sig, format!("op #{}: {d}", self.log.len() - 1)))
+    }
+    fn steps(&mut self, r: &mut Rng, n: u64, cancels: bool) -> Option<(String, String)> {
+        for _ in 0..n {
+            let op = guided_op(r, &self.m, cancels);
+            if let Some(v) = self.step(op) {
+                return Some(v);
+            }
+        }
+        None
+    }
+    fn replay(&self, by: &str) -> Value {
+        json!({"part": "cancel-reasons", "cancelled_by": by, "window": self.m.window, "capacity": self.m.cap, "ops": self.log})
+    }
+}
+
+fn hold_name(h: Hold) -> &'static str {
+    match h {
+        Hold::None => "none",
+        Hold::All => "replay_chunks_from(0) after every operation, to the end",
+        Hold::Random(_) => "random snapshots / chunks / bodies / handles / peers, dropped at random points",
     }
 }
 
@@ -450,31 +655,46 @@ pub fn run(args: &Args, c13: bool) -> Report {
     quiet_panics(true);
     let found = std::sync::Mutex::new(Vec::<(String, String, Value)>::new());
     let counted = std::sync::atomic::AtomicU64::new(0);
+    let counted_held = std::sync::atomic::AtomicU64::new(0);
+    let hs = HoldStats::default();
     let threads = if miri { 1 } else { 16 };
+    // second pass (one operation shorter): the same enumeration with the result of replay_chunks_from(0) taken after every
+    // operation kept alive to the end of the sequence; same model, same observers
+    // (under Miri the interpreter's budget goes to the plain enumeration; held results are covered by the random histories there)
+    let held_len = if miri { 0 } else { max_len - 1 };
+    let passes = [(Hold::None, max_len), (Hold::All, held_len)];
+    let mut pass_ms = [0u64; 2];
+    for (pi, &(hold, max_len)) in passes.iter().enumerate() {
+    if max_len == 0 {
+        continue;
+    }
+    let pass_t0 = Instant::now();
+    let counted = if hold == Hold::None { &counted } else { &counted_held };
+    let hs = &hs;
     for &(window, cap) in &configs {
         std::thread::scope(|s| {
             for t in 0..threads {
                 let alpha = &alpha;
                 let found = &found;
-                let counted = &counted;
                 s.spawn(move || {
                     let mut idx: Vec<usize> = vec![];
                     let mut n = 0u64;
                     // iterative DFS over all sequences of length 1..=max_len; thread t takes first-two-op prefixes ≡ t (mod threads)
-                    fn rec(idx: &mut Vec<usize>, alpha: &[Op], max_len: usize, t: usize, threads: usize, window: u64, cap: u64, c13: bool, n: &mut u64, found: &std::sync::Mutex<Vec<(String, String, Value)>>) {
+                    #[allow(clippy::too_many_arguments)]
+                    fn rec(idx: &mut Vec<usize>, alpha: &[Op], max_len: usize, t: usize, threads: usize, window: u64, cap: u64, c13: bool, n: &mut u64, found: &std::sync::Mutex<Vec<(String, String, Value)>>, hold: Hold, hs: &HoldStats) {
                         if !idx.is_empty() {
                             let key = idx[0] * alpha.len() + idx.get(1).copied().unwrap_or(0);
                             let mine = if idx.len() == 1 { idx[0] % threads == t } else { key % threads == t };
                             if mine {
                                 let ops: Vec<Op> = idx.iter().map(|&i| alpha[i].clone()).collect();
                                 *n += 1;
-                                let r = catching(|| run_seq(window, cap, &ops, ops.len() - 1, c13));
+                                let r = catching(|| run_seq(window, cap, &ops, ops.len() - 1, c13, hold, hs));
                                 match r {
                                     Ok(None) => {}
                                     Ok(Some((_, sig, d))) => {
                                         let mut f = found.lock().unwrap();
                                         if f.len() < 200 {
-                                            f.push((sig, d, json!({"window": window, "capacity": cap, "ops": opj(&ops)})));
+                                            f.push((sig, d, json!({"window": window, "capacity": cap, "ops": opj(&ops), "results_kept_alive": hold_name(hold)})));
                                         }
                                     }
                                     Err(pn) => {
@@ -492,17 +712,26 @@ pub fn run(args: &Args, c13: bool) -> Report {
                         }
                         for i in 0..alpha.len() {
                             idx.push(i);
-                            rec(idx, alpha, max_len, t, threads, window, cap, c13, n, found);
+                            rec(idx, alpha, max_len, t, threads, window, cap, c13, n, found, hold, hs);
                             idx.pop();
                         }
                     }
-                    rec(&mut idx, alpha, max_len, t, threads, window, cap, c13, &mut n, found);
+                    rec(&mut idx, alpha, max_len, t, threads, window, cap, c13, &mut n, found, hold, hs);
                     counted.fetch_add(n, std::sync::atomic::Ordering::Relaxed);
                 });
             }
         });
     }
+    pass_ms[pi] = pass_t0.elapsed().as_millis() as u64;
+    }
     let exhaustive_n = counted.load(std::sync::atomic::Ordering::Relaxed);
+    let held_n = counted_held.load(std::sync::atomic::Ordering::Relaxed);
+    let expect_held: u64 = configs.len() as u64 * (1..=held_len as u32).map(|l| (alpha.len() as u64).pow(l)).sum::<u64>();
+    rep.evaluations += held_n;
+    rep.set("exhaustive_sequences_with_every_replay_result_kept_alive", json!({"sequences": held_n, "max_len": held_len, "wall_ms": pass_ms[1], "wall_ms_of_the_plain_enumeration": pass_ms[0]}));
+    if held_n != expect_held {
+        rep.inconclusive(format!("enumeration with held results visited {held_n} sequences, expected {expect_held}"));
+    }
     let expect: u64 = configs.len() as u64 * (1..=max_len as u32).map(|l| (alpha.len() as u64).pow(l)).sum::<u64>();
     rep.evaluations += exhaustive_n;
     rep.set("exhaustive_sequences", json!(exhaustive_n));
@@ -523,6 +752,8 @@ pub fn run(args: &Args, c13: bool) -> Report {
     let n = args.budget(3_000, 150_000);
     let mut rng = Rng::new(args.seed ^ if c13 { 0xC13 } else { 0xC11 });
     let mut total_ops = 0u64;
+    let mut held_histories = 0u64;
+    let shrink_hs = HoldStats::default();
     for case in 0..n {
         let mut r = rng.fork(case);
         let window = match r.below(6) { 0 => 0, 1 => 1 + r.below(16), 2 => 1 << 20, 3 => u64::MAX, 4 => 1 << 48, _ => 1 + r.below(200) };
@@ -544,23 +775,42 @@ pub fn run(args: &Args, c13: bool) -> Report {
         if case < 2 {
             rep.sample(json!({"kind": "random", "window": window, "capacity": cap, "ops": opj(&ops[..ops.len().min(12)]), "len": ops.len()}));
         }
-        match catching(|| run_seq(window, cap, &ops, 0, c13)) {
+        // every other history runs with results of earlier operations kept alive (separate stream: the operations are the same)
+        let hold = if case % 2 == 1 || miri { Hold::Random(hash_of(&(args.seed, case, c13))) } else { Hold::None };
+        if hold != Hold::None {
+            held_histories += 1;
+        }
+        let hs = &hs;
+        match catching(|| run_seq(window, cap, &ops, 0, c13, hold, hs)) {
             Ok(None) => {}
             Ok(Some((i, sig, d))) => {
                 // shrink the history to a short witness with the same signature
                 let prefix = ops[..(i + 1).min(ops.len())].to_vec();
-                let small = shrink_seq(prefix, |t| matches!(catching(|| run_seq(window, cap, t, 0, c13)), Ok(Some((_, s2, _))) if s2 == sig));
-                let d2 = match catching(|| run_seq(window, cap, &small, 0, c13)) {
+                let small = shrink_seq(prefix, |t| matches!(catching(|| run_seq(window, cap, t, 0, c13, hold, &shrink_hs)), Ok(Some((_, s2, _))) if s2 == sig));
+                let d2 = match catching(|| run_seq(window, cap, &small, 0, c13, hold, &shrink_hs)) {
                     Ok(Some((j, _, d2))) => format!("op #{j}: {d2}"),
                     _ => format!("op #{i}: {d}"),
                 };
-                found.lock().unwrap().push((sig, d2, json!({"window": window, "capacity": cap, "ops": opj(&small), "shrunk_from_len": i + 1})));
+                found.lock().unwrap().push((sig, d2, json!({"window": window, "capacity": cap, "ops": opj(&small), "shrunk_from_len": i + 1, "results_kept_alive": hold_name(hold)})));
             }
             Err(pn) => {
                 let pp = if c13 { "C13" } else { "C11" };
                 found.lock().unwrap().push((format!("{pp}:panic:{}", panic_site(&pn)), pn, json!({"window": window, "capacity": cap, "ops": opj(&ops)})));
             }
         }
+    }
+    rep.set(
+        "results_kept_alive",
+        json!({
+            "random_histories_with_held_results": held_histories,
+            "results_taken": hs.taken.load(Ordering::Relaxed),
+            "results_dropped_mid_history": hs.dropped.load(Ordering::Relaxed),
+            "pushes_while_ring_results_alive": hs.pushes_with_ring_results_alive.load(Ordering::Relaxed),
+            "max_alive_at_once": hs.max_alive.load(Ordering::Relaxed),
+        }),
+    );
+    if !miri && hs.pushes_with_ring_results_alive.load(Ordering::Relaxed) == 0 {
+        rep.inconclusive("no push happened while a result of an earlier replay was still alive");
     }
     // (c) C11 only: racing cancels. "First reason wins" and "cancellation is permanent" under concurrency: once a
     // thread's own cancel() has returned, the reason it reads can never change again, whatever other cancels race it.
@@ -603,6 +853,120 @@ pub fn run(args: &Args, c13: bool) -> Report {
         rep.set("racing_cancel_trials", json!(trials));
         rep.set("racing_cancel_trials_where_thread0_did_not_finish_first", json!(raced));
     }
+    // (f) C11 only: WHO cancels and with WHICH text. Histories (model-guided, so that otherwise valid resumes are frequent) are cut
+    // by a cancel whose reason is drawn from the whole table - including the wording of the library's own idle watchdog - or by
+    // the REAL idle watchdog (spawn_watchdog over a registry holding the controls; native only: it needs threads and sleeps),
+    // and continue with valid and invalid resumes, credit and reconnect waits, sends, acks and further cancels. The model is the
+    // one of parts (a)/(b): permanent, first reason wins (for the watchdog: whatever text it was first seen with), resume refused.
+    if !c13 {
+        let mut texts: Vec<String> = (0..REASONS).map(|i| reason(i as u8)).collect();
+        let (mut by_watchdog, mut by_caller, mut valid_resumes, mut ops_after) = (0u64, 0u64, 0u64, 0u64);
+        let part_t0 = Instant::now();
+        let mut wd_kept_earlier_reason = 0u64;
+        if !miri && !cfg!(miri) {
+            let mut r = rng.fork(0x6000_0000);
+            let reg: Arc<repe::TransferRegistry<u64>> = Arc::new(repe::TransferRegistry::new());
+            let n = args.budget(32, 400);
+            let mut hists: Vec<Hist> = vec![];
+            for k in 0..n {
+                let mut h = Hist::new(&mut r);
+                let pre = r.below(14);
+                let mut bad = catching(|| h.steps(&mut r, pre, false)).unwrap_or_else(|pn| Some((format!("C11:panic:{}", panic_site(&pn)), pn)));
+                // every fourth transfer is already cancelled by its user when the watchdog looks at it: first reason wins
+                if bad.is_none() && k % 4 == 3 {
+                    bad = h.step(Op::Cancel { reason: r.below(REASONS) as u8 });
+                }
+                if let Some((sig, d)) = bad {
+                    found.lock().unwrap().push((sig, d, h.replay("nobody yet")));
+                    continue;
+                }
+                reg.register(k, h.ctl.clone());
+                hists.push(h);
+            }
+            // the watchdog ticks once per second (its floor) and cancels what has been idle for longer than the period given
+            repe::spawn_watchdog(reg.clone(), Duration::from_millis(20 + r.below(80)));
+            let t0 = Instant::now();
+            while hists.iter().any(|h| !h.ctl.is_cancelled()) && t0.elapsed() < Duration::from_secs(12) {
+                std::thread::sleep(Duration::from_millis(10));
+            }
+            if hists.iter().any(|h| !h.ctl.is_cancelled()) {
+                rep.inconclusive("the idle watchdog did not cancel the registered idle transfers within 12 s");
+            }
+            for mut h in hists {
+                if !h.ctl.is_cancelled() {
+                    continue;
+                }
+                rep.eval();
+                let by = if h.m.cancelled.is_some() {
+                    wd_kept_earlier_reason += 1;
+                    "caller, before the watchdog's tick"
+                } else {
+                    // first reason = the text the cancel is first seen with
+                    let seen = h.ctl.cancel_reason().unwrap_or_default();
+                    h.log.push(format!("<idle watchdog cancelled: {seen:?}>"));
+                    if !texts.contains(&seen) {
+                        texts.push(seen.clone());
+                    }
+                    h.m.cancelled = Some(seen);
+                    by_watchdog += 1;
+                    "idle watchdog (spawn_watchdog)"
+                };
+                let post = 6 + r.below(20);
+                rep.distinct(&("cancel-by-watchdog", h.log.len(), post));
+                let v = catching(|| h.steps(&mut r, post, true)).unwrap_or_else(|pn| Some((format!("C11:panic:{}", panic_site(&pn)), pn)));
+                valid_resumes += h.valid_resumes_after_cancel;
+                ops_after += h.ops_after_cancel;
+                if let Some((sig, d)) = v {
+                    found.lock().unwrap().push((sig, d, h.replay(by)));
+                }
+            }
+            drop(reg); // the watchdog thread exits at its next tick
+        }
+        // (under Miri: three short histories per shard; the shards' seeds differ, so together they walk the table)
+        let trials = if miri { 3 } else { args.budget(600, 30_000) };
+        for t in 0..trials {
+            let mut r = rng.fork(0x6100_0000 + t);
+            let text = texts[((if miri { args.seed.wrapping_add(t * 4) } else { t }) % texts.len() as u64) as usize].clone();
+            let mut h = Hist::new(&mut r);
+            let (pre, post) = if miri { (r.below(6), 4 + r.below(5)) } else { (r.below(14), 6 + r.below(20)) };
+            rep.eval();
+            rep.distinct(&("cancel-text", &text, pre, post, t));
+            let v = catching(|| {
+                if let Some(v) = h.steps(&mut r, pre, false) {
+                    return Some(v);
+                }
+                if let Some(v) = h.step(Op::CancelText(text.clone())) {
+                    return Some(v);
+                }
+                h.steps(&mut r, post, true)
+            })
+            .unwrap_or_else(|pn| Some((format!("C11:panic:{}", panic_site(&pn)), pn)));
+            by_caller += 1;
+            valid_resumes += h.valid_resumes_after_cancel;
+            ops_after += h.ops_after_cancel;
+            if let Some((sig, d)) = v {
+                found.lock().unwrap().push((sig, d, h.replay(&format!("caller, reason {:?}", trunc(&text, 40)))));
+            }
+        }
+        rep.set(
+            "cancel_reason_histories",
+            json!({
+                "cancelled_by_idle_watchdog": by_watchdog,
+                "cancelled_by_caller_before_watchdog_tick": wd_kept_earlier_reason,
+                "cancelled_by_caller_with_text": by_caller,
+                "reason_texts": texts.iter().map(|t| trunc(t, 40)).collect::<Vec<_>>(),
+                "operations_after_cancel": ops_after,
+                "otherwise_valid_resumes_after_cancel": valid_resumes,
+                "wall_ms": part_t0.elapsed().as_millis() as u64,
+            }),
+        );
+        if !miri && valid_resumes == 0 {
+            rep.inconclusive("no otherwise valid resume was attempted after a cancel");
+        }
+        if !miri && by_watchdog == 0 {
+            rep.inconclusive("no transfer was cancelled by the idle watchdog");
+        }
+    }
     // (d) C13 only: a resume that arrives while the producer is ALREADY parked in wait_for_reconnect is consumed by that wait,
     // exactly like one staged before the wait (the sequential order the model part drives): the next wait must not hand out the
     // same resume again (a second replay = duplicated bytes at the receiver), and a fresh resume afterwards is still delivered.
@@ -627,7 +991,9 @@ pub fn run(args: &Args, c13: bool) -> Report {
                 ctl.record_sent((i + 1) * unit);
             }
             let off = unit * r.below(n + 1);
-            let park_first = r.below(4) != 0;
+            // (with the three trials of the Miri tier all three draws can say "staged first" - 1 seed in 64 - and the part would observe
+            // nothing: the first trial there always parks first)
+            let park_first = r.below(4) != 0 || (miri && t == 0);
             let kicks = r.below(3);
             let before = parked.load(Ordering::SeqCst);
             let (tx, rx) = std::sync::mpsc::channel();
